@@ -8,6 +8,9 @@ Temperature engines
             algorithms sharing the annealing mix-in);
   (fit)     real short `mcmc_saem` fits on generated cohorts: temperature recorded after every iteration, and the
             std of every sampler of the run recorded after every `sample()`.
+  (P-real)  real `mean_posterior` / `mode_posterior` personalizations (n_iter <= 60, burn-in count/fraction varied): the trace is the
+            (temperature, temperature_inv) actually handed to every `sampler.sample` call of every iteration, plus the values left
+            on the algorithm object; the scales of the run's samplers (configured through `sampler_ind_params`) are judged too.
 Scale engines
   (S-exh)   every binary acceptance history of length 2L+1 (L <= 4) x sampler kind x band x factor, fed to
             `_update_acceptation_rate` / `_update_std`;
@@ -36,7 +39,8 @@ RULE = (
     "temperature {1.0,1.5,5,10,37.3} x n_plateau 1-12 (thorough: n_iter 1-80, 9 fractions, 12 counts, 8 temperatures, n_plateau 1-16) "
     "plus annealing off, each driven directly through "
     "_initialize_annealing/_update_temperature; Hypothesis configurations beyond it (n_iter<=200, n_plateau<=40, arbitrary "
-    "fraction/count/temperature, mcmc_saem/mean_posterior/mode_posterior); real mcmc_saem fits (n_iter<=40) on generated cohorts. "
+    "fraction/count/temperature, mcmc_saem/mean_posterior/mode_posterior); real mcmc_saem fits (n_iter<=40) and real mean_posterior/"
+    "mode_posterior personalizations (n_iter<=60, burn-in shorter/longer than the annealing phase) on generated cohorts. "
     "scales: every binary acceptance history of length 2L+1 for L<=4 (thorough 5) x 4 sampler kinds x 3 bands x 2 factors; Hypothesis "
     "(kind, shape, window 1-30 (60 beyond), band on a 1/1000 (1/10000) grid, factor, phase-biased history) fed directly; real "
     "sampler.sample calls and the samplers of the real fits. Non-trivial = accepted annealing configuration whose trace has >=2 "
@@ -66,6 +70,8 @@ REQUIRED_CLASSES = {
     "T:accepted": 0.02, "T:refused": 0.005, "T:two-temperatures": 0.02, "T:annealing-off": 10, "T:single-plateau": 10,
     "T:ends-before-n-iter": 0.01, "T:clipped-extra-decrement": 10, "fit:two-temperatures": 4,
     "T:second-run-of-same-object": 0.02, "fit:second-run-of-same-object": 4,
+    "P:accepted": 20, "P:two-temperatures": 10, "P:boundary-inside-burn-in": 8, "P:boundary-after-burn-in": 8,
+    "P:all-boundaries-inside-burn-in": 3, "P:scale-adapted-non-default-factor": 8, "fit:scale-adapted-non-default-factor": 4,
     "S:grew-and-shrank": 0.01, "S:tie-at-bound": 10, "S:multi-block": 0.01, "fit:scale-adapted": 4, "S-real:adapted": 4,
 }
 
@@ -900,6 +906,8 @@ def body_fit(col: Collector, case):
         cl.append("fit:scale-adapted")
     if any(si["both"] for si in out["scale_infos"]):
         cl.append("fit:scale-grew-and-shrank")
+    if any(si["grew"] or si["shrank"] for si in out["scale_infos"]) and (case["ind"]["f"] != 0.1 or case["pop"]["f"] != 0.1):
+        cl.append("fit:scale-adapted-non-default-factor")
     nt = "fit:two-temperatures" in cl
     col.case(classes=cl, nontrivial=jhash([case["n_iter"], case["ann"], "fit"]) if nt else None,
              sample=dict(engine="fit", model=case["cfg"], n_iter=case["n_iter"], ann=case["ann"], sampler_pop=case["sampler_pop"],
@@ -910,6 +918,182 @@ def shard_fit(seed: int, n_examples: int, shard: int = 0):
     env.import_leaspy()
     col = Collector(PROP, f"fit-{shard}")
     drive(col, fit_strategy(), body_fit, n_examples=n_examples, seed=shard_seed(seed, shard, 4), sub_check="fit")
+    return col
+
+
+# ================================================================================================
+# real personalizations (mean_posterior / mode_posterior): the annealing mix-in driven by the real personalization loop
+# ================================================================================================
+def perso_strategy():
+    from hypothesis import strategies as st
+
+    from vf.core import gen
+
+    @st.composite
+    def _c(draw):
+        cfg = draw(gen.model_cfg(kinds=("logistic", "linear"), dim=(1, 3)))
+        feats = [f"f{j}" for j in range(cfg["kwargs"]["dimension"])]
+        cohort = draw(gen.cohort(kind=gen.data_kind_for(cfg), n_ind=(3, 6), n_visits=(2, 4), features=feats, id_kinds=("s",),
+                                 shuffle=False, missing=False))
+        n_iter = draw(st.integers(2, 60))
+        # burn-in strictly shorter than the run (the algorithm needs at least one stored sample)
+        if draw(st.booleans()):
+            fr = draw(st.sampled_from([0.0, 0.1, 0.25, 0.5, 0.5, 0.75, 0.9]))
+            while int(fr * n_iter) >= n_iter:
+                fr = fr / 2
+            burn = dict(n_burn_in_iter_frac=fr)
+        else:
+            burn = dict(n_burn_in_iter=draw(st.integers(0, n_iter - 1)), n_burn_in_iter_frac=None)
+        mode = draw(st.sampled_from(["frac", "frac", "frac", "count", "count", "off", "default-block"]))
+        if mode == "off":
+            ann = dict(do_annealing=False)
+        elif mode == "default-block":
+            ann = dict(do_annealing=True)  # shipped defaults: T0 10, 10 plateaus, n_iter_frac 0.5 (= the default burn-in fraction)
+        else:
+            P = draw(st.one_of(st.integers(1, 12), st.integers(2, 5), st.integers(2, 5)))
+            ann = dict(do_annealing=True, initial_temperature=draw(st.sampled_from([1.5, 2.0, 5, 10, 37.3])), n_plateau=P)
+            if mode == "frac":
+                ann["n_iter_frac"] = draw(st.sampled_from([0.1, 0.25, 0.5, 0.75, 1.0]))
+            else:
+                ann.update(n_iter=draw(st.one_of(st.integers(0, 70), st.integers(max(0, P - 2), min(70, 4 * P)))), n_iter_frac=None)
+        lo = draw(st.integers(50, 450))
+        ind = dict(L=draw(st.integers(1, 8)), band=[lo, draw(st.integers(lo + 50, 900))], f=draw(st.sampled_from([0.05, 0.1, 0.3, 0.5])))
+        return dict(engine="P-real", algo=draw(st.sampled_from(["mean_posterior", "mode_posterior"])), cfg=cfg, cohort=cohort, n_iter=n_iter,
+                    burn=burn, ann=ann, ind=ind, seed=draw(st.integers(0, 50)))
+
+    return _c()
+
+
+def run_perso(col: Collector, case, sub="perso"):
+    """A real sampler-based personalization on a model initialised on the generated cohort. The temperature trace is what the
+    samplers actually receive: (algo.temperature, temperature_inv argument) at every `sample` call of every iteration, plus the
+    values left on the algorithm object at the end - independent of where the loop calls `_update_temperature`."""
+    from leaspy.algo import AlgorithmSettings, algorithm_factory
+    from leaspy.exceptions import LeaspyAlgoInputError
+
+    from vf.core import gen
+
+    ref = ref_temperature_schedule(dict(n_iter=case["n_iter"], ann=case["ann"]))
+    out = dict(outcome=None, ref=ref, info={}, scale_infos=[], n_burn=None)
+    try:
+        df, data, ds = gen.dataset_from_case(case["cohort"])
+        model = gen.build_model(case["cfg"])
+        model.initialize(ds)
+    except Exception as e:  # not the subject of this property
+        col.exclude("model-initialisation-failed:" + type(e).__name__)
+        out["outcome"] = "excluded"
+        return out
+    rec = dict(used=[], samplers={})
+    with warnings.catch_warnings():
+        warnings.simplefilter("ignore")
+        try:
+            settings = AlgorithmSettings(case["algo"], n_iter=case["n_iter"], seed=case["seed"], progress_bar=False, annealing=dict(case["ann"]),
+                                         sampler_ind_params=_sampler_params(case["ind"], False), **case["burn"])
+            algo = algorithm_factory(settings)
+            out["n_burn"] = algo.algo_parameters["n_burn_in_iter"]
+        except LeaspyAlgoInputError as e:
+            if ref["must_accept"]:
+                col.fail(sub, "valid-config-refused:" + exc_bucket(e), case, observed=repr(e), expected="accepted")
+            out["outcome"] = "refused"
+            return out
+        o_inits = algo._initialize_samplers
+
+        def w_sample(name, sampler):
+            o_sample = sampler.sample
+
+            def w(state, *, temperature_inv):
+                rec["used"].append((algo.current_iteration, name, algo.temperature, temperature_inv))
+                return o_sample(state, temperature_inv=temperature_inv)
+
+            sampler.sample = w
+
+        def w_inits(state, dataset):
+            r = o_inits(state, dataset)
+            for name, s in algo.samplers.items():
+                rec["samplers"][name] = SamplerRecorder(s)
+                w_sample(name, s)
+            return r
+
+        algo._initialize_samplers = w_inits
+        try:
+            with contextlib.redirect_stdout(io.StringIO()):
+                algo.run(model, ds)
+        except LeaspyAlgoInputError as e:
+            if rec["used"]:
+                col.fail(sub, "refused-after-iterations-started:" + exc_bucket(e), case, observed=f"after iteration {rec['used'][-1][0]}: {e!r}",
+                         expected="refusal only at settings/initialisation time")
+            elif ref["must_accept"]:
+                col.fail(sub, "valid-config-refused:" + exc_bucket(e), case, observed=repr(e), expected="accepted")
+            out["outcome"] = "refused"
+            return out
+        except Exception as e:
+            if _in_schedule_code(e):
+                col.fail(sub, "accepted-config-does-not-run:" + exc_bucket(e), case,
+                         observed=f"after {len(rec['used'])} sampler calls: {e!r}", expected=f"runs all {case['n_iter']} iterations")
+                out["outcome"] = "crashed"
+            else:
+                col.exclude("personalization-failed-outside-schedule-code:" + exc_bucket(e))
+                out["outcome"] = "excluded"
+            return out
+    out["outcome"] = "accepted"
+    n = case["n_iter"]
+    per_iter = {}
+    for k, name, t, ti in rec["used"]:
+        per_iter.setdefault(k, []).append((name, t, ti))
+    if sorted(per_iter) != list(range(1, n + 1)) or len({len(v) for v in per_iter.values()}) != 1:
+        col.fail(sub, "iterations-not-all-run", case, observed=f"sampler calls at iterations {sorted(per_iter)[:60]}",
+                 expected=f"every sampler called once in each iteration 1..{n}")
+        return out
+    for k in range(1, n + 1):
+        if len({(t, ti) for _, t, ti in per_iter[k]}) != 1:
+            col.fail(sub, "samplers-of-one-iteration-receive-different-temperatures", case, observed=f"iteration {k}: {per_iter[k]}",
+                     expected="one temperature per iteration")
+            return out
+    # trace[k] = temperature in force after iteration k = the one handed to the samplers in iteration k+1; trace[n] = left on the object
+    trace = [per_iter[k][0][1] for k in range(1, n + 1)] + [algo.temperature]
+    invs = [per_iter[k][0][2] for k in range(1, n + 1)] + [algo.temperature_inv]
+    out["info"] = judge_temperature(col, sub, case, ref, trace, invs)
+    out["info"]["trace_head"] = [float(t) for t in trace[:12]]
+    for name, sr in sorted(rec["samplers"].items()):
+        if not sr.order_ok or len(sr.stds) != n + 1:
+            col.fail("perso-scale", "sampler-not-updated-once-per-iteration", case,
+                     observed=f"{name}: {len(sr.stds) - 1} std updates, {len(sr.accs)} acceptance updates", expected=f"{n} of each, interleaved")
+            continue
+        out["scale_infos"].append(judge_scales(col, "perso-scale", case, stds=sr.stds, accs=[a.astype("int64") for a in sr.accs],
+                                               label=":ind", **_band_of(case["ind"])))
+    return out
+
+
+def body_perso(col: Collector, case):
+    out = run_perso(col, case)
+    if out["outcome"] == "excluded":
+        return
+    ref, info, nb = out["ref"], out["info"], out["n_burn"]
+    cl = ["P:" + out["outcome"], "P:algo:" + case["algo"]]
+    cl += [c.replace("T:", "P:") for c in _classes_temperature(dict(n_iter=case["n_iter"], ann=case["ann"]), ref, out["outcome"], info)[1:]]
+    if out["outcome"] == "accepted" and ref["period"] is not None and nb is not None:
+        # plateau boundaries at which the reference temperature really decreases, within the run
+        bounds = [j * ref["period"] for j in range(1, ref["P"]) if j * ref["period"] <= min(ref["n_ann"], case["n_iter"])]
+        if any(b <= nb for b in bounds):
+            cl.append("P:boundary-inside-burn-in")
+        if any(b > nb for b in bounds):
+            cl.append("P:boundary-after-burn-in")
+        if bounds and all(b <= nb for b in bounds):
+            cl.append("P:all-boundaries-inside-burn-in")
+    if any(si["grew"] or si["shrank"] for si in out["scale_infos"]):
+        cl.append("P:scale-adapted")
+    if any((si["grew"] or si["shrank"]) for si in out["scale_infos"]) and case["ind"]["f"] != 0.1:
+        cl.append("P:scale-adapted-non-default-factor")
+    nt = "P:two-temperatures" in cl
+    col.case(classes=cl, nontrivial=jhash([case["algo"], case["n_iter"], case["burn"], case["ann"], "perso"]) if nt else None,
+             sample=dict(engine="P-real", algo=case["algo"], model=case["cfg"], n_iter=case["n_iter"], burn=case["burn"], ann=case["ann"],
+                         trace_head=info.get("trace_head")) if _samples_here(col) else None)
+
+
+def shard_perso(seed: int, n_examples: int, shard: int = 0):
+    env.import_leaspy()
+    col = Collector(PROP, f"P-real-{shard}")
+    drive(col, perso_strategy(), body_perso, n_examples=n_examples, seed=shard_seed(seed, shard, 6), sub_check="perso")
     return col
 
 
@@ -1080,6 +1264,8 @@ def shards(tier: str, seed: int):
     for s in range(8 if quick else 16):
         specs.append((m, "shard_fit", dict(seed=seed, n_examples=14 if quick else 400, shard=s)))
     for s in range(4 if quick else 16):
+        specs.append((m, "shard_perso", dict(seed=seed, n_examples=30 if quick else 500, shard=s)))
+    for s in range(4 if quick else 16):
         specs.append((m, "shard_scale_real", dict(seed=seed, n_examples=12 if quick else 250, shard=s)))
     n_parts = 8 if quick else 16
     for part in range(n_parts):
@@ -1110,4 +1296,6 @@ def replay(sub_check: str, inp):
             inp["f"], rows_from_case(inp))
     elif sub_check == "scale-real":
         body_real(col, inp)
+    elif sub_check in ("perso", "perso-scale"):
+        run_perso(col, inp)
     return col.failures
